@@ -8,7 +8,8 @@ reference written from the documentation on top of Python's str / re / hashlib /
         regex as data and as "..." / "..."i literal, against Python re on the shared RE2 subset
   fmt   fmtnum fmtifnum hexfmt --ofmt format-values against C printf semantics
   verb  wrapping verbs (sub gsub ssub case clean-whitespace unspace format-values
-        utf8-to-latin1 latin1-to-utf8) == put applying the function per field (metamorphic)
+        utf8-to-latin1 latin1-to-utf8) == put applying the function per field (metamorphic);
+        subs-law: sub/gsub/ssub verb == function per field == Python reference over a hostile regex pool
   bad   invalid UTF-8 arguments: no crash, a value comes back, strlen >= 0
   doc   the examples printed by `mlr help function ...` and the GENMD blocks of the three
         reference pages, replayed (recorded upstream executions)
@@ -192,6 +193,11 @@ def canon(v):
     raise TypeError(v)
 
 
+# a string-valued result is string-typed ("empty" is the type name of the empty string): a function result that
+# merely has the right text but comes back int- / float- / boolean-typed (re-inferred) is a different value
+STR_TYPES = ("string", "empty")
+
+
 def agrees(exp, got):
     """exp: model value / ABSENT / ERROR.  got: (kind, value, type)."""
     kind, val, t = got
@@ -206,7 +212,7 @@ def agrees(exp, got):
     if isinstance(exp, int):
         return t == "int" and val == str(exp)
     if isinstance(exp, str):
-        return isinstance(val, str) and val == exp and t not in ("map", "array")
+        return isinstance(val, str) and val == exp and t in STR_TYPES
     if isinstance(exp, dict):
         if not (isinstance(val, dict) and list(val.keys()) == [str(k) for k in exp.keys()]):
             return False
@@ -305,6 +311,8 @@ def _m_clean_ws_type(s):
         return DECLINE
     if re.fullmatch(r"-?[1-9][0-9]{0,15}", c):
         return int(c)        # "followed by type inference"
+    if M.parse_number(c) is not None or re.fullmatch(r"[-+]?(0x[0-9a-fA-F]+|0b[01]+|0o[0-7]+|[0-9.]+([eE][-+]?[0-9]+)?|inf|nan|infinity)", c, re.I):
+        return DECLINE       # other number spellings: which type inference gives is C06's subject
     return c
 
 
@@ -874,21 +882,10 @@ def re_check_row(res, rec, a, go, py, ci, ngroups, minlen, c, d, argv, srow, cha
         e = M.expand_repl(c, m, ngroups)
         es = DECLINE if e is DECLINE else a[:m.start()] + e + a[m.end():]
     chk("sub", es, "sub", cls=_re_class(a, go, c, ci, chan))
-    if minlen < 1:
-        eg = DECLINE       # empty-match iteration rules differ between engines
-    else:
-        bad = []
-
-        def f(mm):
-            e = M.expand_repl(c, mm, ngroups)
-            if e is DECLINE:
-                bad.append(1)
-                return ""
-            return e
-        eg = rx.sub(f, a)
-        if bad:
-            eg = DECLINE
-    chk("gsub", eg, "gsub", cls=_re_class(a, go, c, ci, chan))
+    # Go's replace-all rule (the engine the docs name): no empty match adjacent to the previous match,
+    # advance one character after an empty match; identical to re.sub when no match is empty
+    eg = M.go_replace_all(rx, a, lambda mm: M.expand_repl(c, mm, ngroups))
+    chk("gsub", eg, "gsub", cls=_re_class(a, go, c, ci, chan) + (":empty-match" if minlen < 1 else ""))
     if a == "":
         # empty input: the regex reference says absent / the match "" , the null-data page says
         # "empty in, empty out"; an error is neither
@@ -934,6 +931,138 @@ def re_check_row(res, rec, a, go, py, ci, ngroups, minlen, c, d, argv, srow, cha
                           {"argv": argv, "stdin": json_rows([srow]), "expected": canon(exp), "got": g[1]})
 
 
+def slash_check_row(res, rec, row, py, slash, ng, argv):
+    """A data regex spelled /.../ or /.../i: the documentation says Miller regexes are delimited by double quotes
+    "rather than slashes", so the slashes (and the i) are ordinary pattern characters."""
+    a, c = row["a"], row["c"]
+    lit = re.compile("/" + py + slash[3:])                                    # the documented (literal) reading
+    alt = re.compile(py, re.IGNORECASE if slash.endswith("i") else 0)         # slashes taken as delimiters
+    for fn, name in (("=~", "eq"), ("sub", "sub"), ("gsub", "gsub"), ("strmatch", "m")):
+        def ex(rx):
+            if fn in ("=~", "strmatch"):
+                return rx.search(a) is not None
+            return M.go_replace_all(rx, a, lambda mm: M.expand_repl(c, mm, ng), count=1 if fn == "sub" else None)
+        e, e2 = ex(lit), ex(alt)
+        if e is DECLINE:
+            res["skipped"] += 1
+            continue
+        g = got_of(rec, name)
+        cls = "slash-data-regex"
+        if not agrees(e, g) and e2 is not DECLINE and agrees(e2, g):
+            cls = "slashes-stripped-from-data-regex"
+        _check(res, fn, e, g, (a, row["b"], c) if fn in ("sub", "gsub") else (a, row["b"]), argv, row, False, cls=cls)
+
+
+CAPSEQ_FUNCS = ['sub($a, $b1, "<\\1>")', 'gsub($a, $b2, "\\0\\0")', "regextract_or_else($a, $b3, \"no\")", "strmatchx($a, $b1)",
+                "strmatch($a, $b2)", 'any([1], func(e) { return $a =~ $b3 })', "matchx_udf($a, $b1)"]
+
+
+def capseq_program(steps):
+    """The capture-state machine of reference-main-regular-expressions.md, one observation of the template after
+    every step: before any match "\\1" evaluates to itself; after a successful =~ / !=~ to the captures; after a failed
+    one to the empty string; `=~ null` resets; sub/gsub/regextract/strmatch/strmatchx and matches inside a
+    user-defined function (own frame) do not disturb the state."""
+    lines = ['func matchx_udf(s, r) { return s =~ r }',
+             f'$r_c0 = "{CAP_TEMPLATE}";']
+    for i, st in enumerate(steps, 1):
+        if st[0] == "eq":
+            lines.append(f"$r_m{i} = $a =~ $b{st[1]};")
+        elif st[0] == "ne":
+            lines.append(f"$r_m{i} = $a !=~ $b{st[1]};")
+        elif st[0] == "null":
+            lines.append("$a =~ null;")
+        else:
+            lines.append(f"$r_m{i} = typeof({CAPSEQ_FUNCS[st[1]]});")
+        lines.append(f'$r_c{i} = "{CAP_TEMPLATE}";')
+    return "\n".join(lines)
+
+
+def capseq_case(case, rng, res, st):
+    steps = []
+    for _ in range(rng.randint(3, 6)):
+        r = rng.random()
+        if r < 0.45:
+            steps.append(("eq", rng.randint(1, 3)))
+        elif r < 0.65:
+            steps.append(("ne", rng.randint(1, 3)))
+        elif r < 0.78:
+            steps.append(("null",))
+        else:
+            steps.append(("fn", rng.randrange(len(CAPSEQ_FUNCS))))
+    prog = capseq_program(steps)
+    argv = JFLAGS + ["put", prog]
+    rows, meta = [], []
+    for _ in range(case["n"]):
+        pats = []
+        for j in range(3):
+            while True:
+                node, go, py = gen_pattern(rng)
+                if j == 2 and rng.random() < 0.5 and M.rx_ngroups(node) > 0:
+                    continue          # the third regex is often one without groups (a match that captures nothing but \\0)
+                break
+            pats.append((node, go, py))
+        src = rng.choice(pats)[0]
+        r = rng.random()
+        if r < 0.5:
+            a = gen_subject(rng, src)
+        elif r < 0.8:
+            a = "".join(M.rx_sample(p[0], rng) + rng.choice(["", " ", "-"]) for p in rng.sample(pats, 3))
+        else:
+            a = gen_subject(rng, pats[0][0])
+        rows.append({"a": a, "b1": pats[0][1], "b2": pats[1][1], "b3": pats[2][1]})
+        meta.append(pats)
+    outs = eval_rows(prog, rows, stats=st)
+    for row, pats, rec in zip(rows, meta, outs):
+        if isinstance(rec, Fail):
+            fail_violation(res, rec, "captures", "capseq", argv, json_rows([row]), f"capture-state sequence on {row['a']!r}")
+            continue
+        a = row["a"]
+        state = None
+        trail = ["start"]
+        kinds = set()
+
+        def observe(i):
+            exp = CAP_TEMPLATE if state is None else state
+            res["evals"] += 1
+            bump(res, "fn:capture-sequence")
+            got = rec.get("r_c%d" % i)
+            if got != exp:
+                add_violation(res, {"kind": "value", "fn": "captures", "class": "sequence:" + trail[-1] + (":first-in-record" if i == 0 else "")},
+                              f"after [{' ; '.join(trail)}] on {a!r} (regexes {row['b1']!r}, {row['b2']!r}, {row['b3']!r}) the string "
+                              f"\"{CAP_TEMPLATE}\" evaluates to {got!r}, documented state says {exp!r}",
+                              {"argv": argv, "stdin": json_rows([row]), "expected": exp, "got": got, "steps": trail[1:]})
+                return False
+            return True
+
+        if not observe(0):
+            continue
+        for i, stp in enumerate(steps, 1):
+            if stp[0] in ("eq", "ne"):
+                node, go, py = pats[stp[1] - 1]
+                m = re.compile(py).search(a)
+                ng = M.rx_ngroups(node)
+                state = _cap_string(m, ng)
+                want = (m is not None) if stp[0] == "eq" else (m is None)
+                trail.append(("=~" if stp[0] == "eq" else "!=~") + (" matched" if m else " failed") + (" groups" if ng else " no-groups"))
+                kinds.add(trail[-1])
+                res["evals"] += 1
+                if rec.get("r_m%d" % i) != canon(want):
+                    add_violation(res, {"kind": "value", "fn": "=~" if stp[0] == "eq" else "!=~", "class": "sequence"},
+                                  f"{a!r} {'=~' if stp[0] == 'eq' else '!=~'} {go!r} = {rec.get('r_m%d' % i)!r}, reference says {canon(want)!r}",
+                                  {"argv": argv, "stdin": json_rows([row]), "expected": canon(want), "got": rec.get("r_m%d" % i)})
+                    break
+            elif stp[0] == "null":
+                state = None
+                trail.append("=~ null")
+            else:
+                trail.append("call " + CAPSEQ_FUNCS[stp[1]].split("(")[0])
+            if not observe(i):
+                break
+        if len(kinds) >= 2:
+            res["nontrivial_keys"].append(_h("capseq", a, row["b1"], row["b2"], row["b3"], steps))
+    res["sample"] = {"monitor": "re/capseq", "steps": steps, "subject": rows[0]["a"]}
+
+
 def _re_class(a, go, c, ci, chan):
     parts = [chan]
     if ci:
@@ -956,27 +1085,60 @@ def re_case(case):
     res = case_result(_h("re", case["seed"], mode), nontrivial=False, evals=0)
     res["nontrivial_keys"] = []
     st = {}
-    if mode == "data":
+    if mode == "capseq":
+        capseq_case(case, rng, res, st)
+    elif mode == "data":
         rows, meta = [], []
+        fill = case.get("fill", 0)
+        # the compiled-regex cache has a size limit (cache sizes are where such bugs hide): `fill` distinct cheap
+        # patterns come first in the same process, so that the ordinary rows run past the limit, then some of the
+        # early patterns (cached before the limit) and of the late ones (seen only after it) are used again
+        for k in range(fill):
+            tag = "q%dz" % k
+            go = tag + "([0-9])" if k % 2 else "(" + tag + ")[0-9]"
+            a = rng.choice(["", "x", "é"]) + tag + str(k % 10) + rng.choice(["", "y"])
+            rows.append({"a": a, "b": go, "c": rng.choice(["<\\1>", "\\0\\0", "X"]), "d": "no"})
+            meta.append((None, go, go, 1, 1, False, None))
         for _ in range(n):
             node, go, py = gen_pattern(rng)
             ng, ml = M.rx_ngroups(node), M.rx_min_len(node)
+            # the Miller delimiters are honoured in regex-as-data too: "..." and "..."i (documented: "Miller regexes
+            # are wrapped with double quotes rather than slashes", i = case-insensitive); slashes are NOT delimiters
+            w = rng.random()
+            wrap = '"%s"' if w < 0.04 else '"%s"i' if w < 0.09 else "/%s/" if w < 0.11 else "/%s/i" if w < 0.13 else None
+            if wrap and '"' in go:
+                wrap = None
             for _ in range(rng.randint(1, 3)):
                 a = gen_subject(rng, node)
+                if wrap and wrap.endswith("i") and rng.random() < 0.7:
+                    a = "".join(ch.swapcase() if (len(ch.swapcase()) == 1 and rng.random() < 0.5) else ch for ch in a)
+                if wrap and wrap[0] == "/" and rng.random() < 0.5:
+                    a = "/" + a + wrap[4:]
                 c = rng.choice([r for r in REPLS if _max_ref(r) <= ng] or [""])
                 d = rng.choice(["nonesuch", "", "é"])
-                rows.append({"a": a, "b": go, "c": c, "d": d})
-                meta.append((node, go, py, ng, ml))
+                rows.append({"a": a, "b": (wrap % go) if wrap else go, "c": c, "d": d})
+                meta.append((node, go, py, ng, ml, bool(wrap) and wrap.endswith('"i'), wrap if (wrap and wrap[0] == "/") else None))
+        if fill:
+            base = len(rows)
+            for _ in range(60):
+                j = rng.randrange(base)
+                rows.append(dict(rows[j]))
+                meta.append(meta[j])
         prog = re_program("$b")
         argv = JFLAGS + ["put", prog]
         outs = eval_rows(prog, rows, stats=st)
         for row, mt, rec in zip(rows, meta, outs):
-            node, go, py, ng, ml = mt
+            node, go, py, ng, ml, ci, slash = mt
             if isinstance(rec, Fail):
-                fail_violation(res, rec, "regex", "data", argv, json_rows([row]), f"regex functions on {row['a']!r} with {go!r}")
+                fail_violation(res, rec, "regex", "data", argv, json_rows([row]), f"regex functions on {row['a']!r} with {row['b']!r}")
                 continue
-            re_check_row(res, rec, row["a"], go, py, False, ng, ml, row["c"], row["d"], argv, row, "data",
-                         ng >= 1 or M.rx_has_alt(node))
+            if slash:
+                slash_check_row(res, rec, row, py, slash, ng, argv)
+                continue
+            re_check_row(res, rec, row["a"], go, py, ci, ng, ml, row["c"], row["d"], argv, row, "data" + ("-quoted" if row["b"] != go else ""),
+                         node is not None and (ng >= 1 or M.rx_has_alt(node)))
+        if fill:
+            bump(res, "regex_cache_fill_patterns", fill)
         res["sample"] = {"monitor": "re/data", "subject": rows[0]["a"], "regex": rows[0]["b"], "replacement": rows[0]["c"]}
     else:
         node, go, py = gen_pattern(rng, safe=True)
@@ -1053,6 +1215,10 @@ def rand_format(rng, verbs="dxXobeEfFgG", allow_text=True, sepok=True):
         flags = ""
     width = rng.choice(["", "", "1", "3", "5", "8", "12", "20", str(rng.randint(1, 20))])
     prec = rng.choice([None, None, "0", "1", "2", "3", "6", "12", "", str(rng.randint(0, 12))])
+    if rng.random() < 0.08:
+        # beyond the 64-character scratch buffer of Go's fmt (width + precision), where it changes code path
+        width = rng.choice([width, "64", "65", "70", "130"])
+        prec = rng.choice([prec, "20", "40", "64", "70"])
     ell = ""
     if verb in "dx" and rng.random() < 0.3:
         ell = rng.choice(["l", "ll"])
@@ -1374,6 +1540,8 @@ def verb_case(case):
     res = case_result(_h("verb", case["seed"]), nontrivial=False, evals=0)
     res["nontrivial_keys"] = []
     which = case["verb"]
+    if which == "subs-law":
+        return subs_case(case)
     recs = verb_records(rng, case["n"], ws=which in ("clean-whitespace", "unspace"))
     how = None
     if which == "case":
@@ -1518,6 +1686,11 @@ def verb_case(case):
                           {"argv": io + dargv, "stdin": inp, "stderr": rd.err[:500]})
     r1 = run_mlr(io + vargv, stdin=inp, cpu_s=10)
     bump(res, "procs")
+    if which in ("sub", "gsub", "ssub") and sel[0] == "r" and rd.ok and r1.ok and rd.stdout != r1.stdout:
+        add_violation(res, {"kind": "option-spellings-differ", "verb": which, "opt": "-r"},
+                      f"mlr {' '.join(shlex.quote(a) for a in dargv)} and mlr {' '.join(shlex.quote(a) for a in vargv)} "
+                      f"(the two spellings of -r) give different output",
+                      {"argv": io + dargv, "stdin": inp, "other_argv": io + vargv, "stdout": rd.stdout[:2000], "other_stdout": r1.stdout[:2000]})
     detail = {"argv": io + vargv, "stdin": inp, "partner_argv": io + ["put", prog] if prog else None}
     opts = " ".join(a for a in vargv[1:] if a in ("-f", "-r", "-a", "-k", "-v", "-u", "-l", "-s", "-t", "-i", "-n",
                                                    "--keys-only", "--values-only"))
@@ -1571,6 +1744,216 @@ def verb_case(case):
 
 
 # ==========================================================================================
+# (verb/subs-law) the sub / gsub / ssub verbs are documented as the DSL functions of the same name applied
+# to the chosen fields ("like the `sub` DSL function"): verb == put with the function per field == the
+# independent reference (Python re under Go's replace-all rule), over a hostile regex pool
+# (backslash sequences that are regex syntax, anchors, classes, quantifiers, alternation, flags,
+# the Miller "..."i form, pieces that match the empty string).  The regex reaches the verb as a
+# command-line argument and the function as a string variable (put -s), byte for byte the same text.
+
+SUBS_NEW = ["", "X", "<\\0>", "[\\1]", "\\2\\1", "é", "a b", "\\t", "<\\t\\0>", "\\\\", "\\x41", "\\n", "\\x1f", "a\\\\b",
+            "\\1\\1", "$1", "&", "日\\0本", "<\\0|\\0>", "\\3\\2\\1"]
+SSUB_NEW = ["", "X", "é", "<>", "a b", "\\t", "\\\\", "\\x41", "$1", "&", "日本", "a\\\\b"]
+SSUB_OLD = [".", "a", "é", "b c", "*", "(", "l", " ", "日", "ab", "[a]", "\\t", "\\\\", "\\x2e", "a?b", "?", "|", "\\\\\\\\",
+            "cat", "^", "$", "\\n", "C:\\\\tmp", "\\x5c", ".*", "a\\\\b", "\\x3f", "x.y", "k?", "\\x41"]
+NAME_RX = [("^[a-c]$", False), ("e", False), ("^.$", False), ("[A-Z]", False), (" ", False), ("^n", False), ("é|日", False),
+           ("^[A-C]", True), ("KEY|name", True), ("z$", True)]
+_NUMLIKE = re.compile(r"[-+]?[0-9a-fA-FxXoObBpP._+\-]*|[-+]?(?i:inf|infinity|nan)")
+
+
+def subs_records(rng, n, samples):
+    recs = []
+    for _ in range(n):
+        ks = rng.sample(KEY_POOL, rng.randint(1, 5))
+        recs.append({k: M.hostile_subject(rng, samples) for k in ks})
+    return recs
+
+
+def subs_case(case):
+    rng = random.Random(case["seed"])
+    res = case_result(_h("subs-law", case["seed"]), nontrivial=False, evals=0)
+    res["nontrivial_keys"] = []
+    which = case["which"]
+    io = ["--ijson", "--ojson"]
+    # ---- the search text
+    if which == "ssub":
+        old = rng.choice(SSUB_OLD)
+        old_u = M.c_unescape(old)      # "Both the search and replacement strings support C-style backslash escapes"
+        new = rng.choice(SSUB_NEW)
+        samples = [old_u, old_u + old_u, "x" + old_u + "y", old, "cat", "a?b", "x.y", "xzy", "C:\\tmp", "C:\tmp", "a\\b"]
+        h = None
+        rx = None
+        ng = 0
+    else:
+        for _ in range(200):
+            if rng.random() < 0.75:
+                h = M.hostile_regex(rng)
+            else:
+                node, go, py = gen_pattern(rng)
+                h = {"go": go, "bare": go, "py": py, "flags": 0, "groups": M.rx_ngroups(node), "empty": M.rx_min_len(node) < 1,
+                     "samples": [M.rx_sample(node, rng) for _ in range(4)], "quoted": None}
+            if h["go"].startswith("-") or _NUMLIKE.fullmatch(h["go"]):
+                continue        # would be read as an option / inferred as a number by put -s
+            break
+        old = h["go"]
+        old_u = old                    # sub / gsub: only "the replacement string supports C-style backslash escapes"
+        rx = None
+        if h["py"] is not None:
+            try:
+                rx = re.compile(h["py"], h["flags"])
+                if rx.groups != h["groups"]:
+                    rx = None
+            except re.error:
+                rx = None
+        ng = h["groups"]
+        new = rng.choice([x for x in SUBS_NEW if _max_ref(x) <= ng])
+        samples = h["samples"]
+    new_u = M.c_unescape(new)
+    assert new_u is not DECLINE and old_u is not DECLINE, (old, new)
+    recs = subs_records(rng, case["n"], samples)
+    allkeys = sorted({k for r in recs for k in r})
+    inp = json_rows(recs)
+    # ---- field selection
+    r = rng.random()
+    alt_vopt = None
+    if r < 0.4:
+        fs = rng.sample(allkeys, min(len(allkeys), rng.randint(1, 3))) + (["nosuch"] if rng.random() < 0.3 else [])
+        sel, vopt = ("f", fs), ["-f", ",".join(fs)]
+        chosen = lambda k: k in fs
+    elif r < 0.7:
+        sel, vopt = ("all",), ["-a"]
+        chosen = lambda k: True
+    else:
+        nrx, nci = rng.choice(NAME_RX)
+        arg = '"' + nrx + '"i' if nci else nrx
+        sel = ("r", nrx, nci)
+        # documented spelling `-r {regex}` and the regression corpus's `-r -f {regex}`: same selection
+        vopt, alt_vopt = (["-r", arg], ["-r", "-f", arg]) if rng.random() < 0.5 else (["-r", "-f", arg], ["-r", arg])
+        nrc = re.compile(nrx, re.IGNORECASE if nci else 0)
+        chosen = lambda k: nrc.search(k) is not None
+    if sel[0] == "r":
+        selx = "strmatch(k, " + dsl_lit(sel[1]) + ("i" if sel[2] else "") + ")"
+    else:
+        selx = _sel_expr(sel)
+    vargv = [which] + vopt + [old, new]
+    if which == "ssub":
+        prog = f"for (k,v in $*) {{ if ({selx}) {{ $[k] = ssub(v, @old, @new) }} }}"
+        pargv = io + ["put", "-s", "old=" + old_u, "-s", "new=" + new_u, prog]
+    else:
+        prog = f"for (k,v in $*) {{ if ({selx}) {{ $[k] = {which}(v, @re, @new) }} }}"
+        pargv = io + ["put", "-s", "re=" + old_u, "-s", "new=" + new_u, prog]
+    opts = vopt[0] if len(vopt) < 3 else "-r -f"
+    rcls = "ssub" if which == "ssub" else ("regex-backslash" if "\\" in old else "regex-quoted" if h["quoted"] else "regex")
+
+    # ---- the reference
+    def ref(v):
+        if which == "ssub":
+            return v.replace(old_u, new_u, 1) if old_u != "" else DECLINE
+        if rx is None:
+            return DECLINE
+        f = lambda m: M.expand_repl(new_u, m, ng)
+        return M.go_replace_all(rx, v, f, count=1 if which == "sub" else None)
+
+    r1 = run_mlr(io + vargv, stdin=inp, cpu_s=10)
+    r2 = run_mlr(pargv, stdin=inp, cpu_s=10)
+    bump(res, "procs", 2)
+    detail = {"argv": io + vargv, "stdin": inp, "partner_argv": pargv}
+    ok1, ok2 = r1.ok and not r1.crashed(), r2.ok and not r2.crashed()
+    if r1.verdict == "slow" or r2.verdict == "slow":
+        res["inconc"] += 1
+        return res
+    if not ok1 and not ok2 and r1.verdict == "exited" and r2.verdict == "exited" and not r1.crashed() and not r2.crashed() \
+            and rx is None and which != "ssub":
+        res["skipped"] += len(recs)      # a text neither Go's regexp nor the reference accepts: outside the domain
+        bump(res, "skipped:subs-law-regex-rejected")
+        return res
+    if not ok1:
+        fail_violation(res, Fail(r1), which, "verb-run " + opts + " " + rcls, io + vargv, inp,
+                       f"mlr {' '.join(shlex.quote(a) for a in vargv)} (the function form " + ("also fails" if not ok2 else "succeeds") + ")")
+        return res
+    if not ok2:
+        fail_violation(res, Fail(r2), which, "partner-run " + rcls, pargv, inp,
+                       f"{which}() with the regex {old!r} as a string variable (the verb succeeds)")
+        return res
+    o1 = parse_out(r1.stdout.decode("utf-8", "replace"))
+    o2 = parse_out(r2.stdout.decode("utf-8", "replace"))
+    if o1 is None or o2 is None or len(o1) != len(recs) or len(o2) != len(recs):
+        add_violation(res, {"kind": "verb-vs-function", "verb": which, "opts": opts, "class": "structure"},
+                      f"mlr {' '.join(shlex.quote(a) for a in vargv)}: output is not {len(recs)} JSON records",
+                      dict(detail, verb_stdout=r1.stdout[:2000], function_stdout=r2.stdout[:2000]))
+        return res
+    res["evals"] += len(recs)
+    bump(res, "verb:" + which + "-law", len(recs))
+    seen = set()
+    nfield = 0
+    touched = False
+    for i, (rec, a, b) in enumerate(zip(recs, o1, o2)):
+        if list(a) != list(rec) or list(b) != list(rec):
+            if "structure" not in seen:
+                seen.add("structure")
+                add_violation(res, {"kind": "verb-vs-function", "verb": which, "opts": opts, "class": "structure"},
+                              f"mlr {' '.join(shlex.quote(x) for x in vargv)}: record {i+1} has keys {list(a)} (verb) / {list(b)} (function), input {list(rec)}",
+                              dict(detail, record=rec))
+            continue
+        for k, v in rec.items():
+            e = ref(v) if chosen(k) else v
+            gv, gf = a[k], b[k]
+            nfield += 1
+            if gv != v:
+                touched = True
+            emptycls = v == "" and chosen(k) and gv == ""
+            if gv != gf:
+                cls = "empty-value-untouched" if emptycls else rcls
+                if ("vf", cls) not in seen:
+                    seen.add(("vf", cls))
+                    add_violation(res, {"kind": "verb-vs-function", "verb": which, "opts": opts, "class": cls},
+                                  f"mlr {' '.join(shlex.quote(x) for x in vargv)} on the field value {v!r} gives {gv!r}; "
+                                  f"{which}(v, {old!r}, {new!r}) per field gives {gf!r}" + (f"; reference {e!r}" if e is not DECLINE else ""),
+                                  dict(detail, field=k, value=v, verb_gives=gv, function_gives=gf, reference=show(e) if e is not DECLINE else None))
+            if e is DECLINE:
+                res["skipped"] += 1
+                continue
+            res["evals"] += 1
+            if gv != e and not (gv != gf and gf == e):
+                cls = "empty-value-untouched" if (emptycls and gf == e) else rcls
+                if ("vm", cls) not in seen:
+                    seen.add(("vm", cls))
+                    add_violation(res, {"kind": "verb-vs-model", "verb": which, "opts": opts, "class": cls},
+                                  f"mlr {' '.join(shlex.quote(x) for x in vargv)} on the field value {v!r} gives {gv!r}; "
+                                  f"the reference regex engine gives {e!r}",
+                                  dict(detail, field=k, value=v, expected=e, got=gv))
+            if gf != e:
+                if ("fm", rcls) not in seen:
+                    seen.add(("fm", rcls))
+                    add_violation(res, {"kind": "value", "fn": which, "class": "hostile:" + rcls},
+                                  f"{which}({v!r}, {old!r}, {new_u!r}) = {gf!r}; the reference regex engine gives {e!r}",
+                                  {"argv": pargv, "stdin": json_rows([{k: v}]), "expected": e, "got": gf})
+    if r1.stdout != r2.stdout and not seen:
+        add_violation(res, {"kind": "verb-vs-function", "verb": which, "opts": opts, "class": "bytes"},
+                      f"mlr {' '.join(shlex.quote(x) for x in vargv)}: same parsed records as the function form but different output bytes",
+                      dict(detail, verb_stdout=r1.stdout[:2000], function_stdout=r2.stdout[:2000]))
+    if alt_vopt is not None:
+        aargv = [which] + alt_vopt + [old, new]
+        r3 = run_mlr(io + aargv, stdin=inp, cpu_s=10)
+        bump(res, "procs")
+        res["evals"] += 1
+        if r3.verdict == "slow":
+            res["inconc"] += 1
+        elif not r3.ok or r3.crashed():
+            add_violation(res, {"kind": "documented-option-rejected", "verb": which, "opt": "-r {regex}" if len(alt_vopt) == 2 else "-r -f {regex}"},
+                          f"mlr {' '.join(shlex.quote(x) for x in aargv)} fails although mlr {' '.join(shlex.quote(x) for x in vargv)} runs: {r3.err.strip()[:100]!r}",
+                          {"argv": io + aargv, "stdin": inp, "stderr": r3.err[:500]})
+        elif r3.stdout != r1.stdout:
+            add_violation(res, {"kind": "option-spellings-differ", "verb": which, "opt": "-r"},
+                          f"mlr {' '.join(shlex.quote(x) for x in aargv)} and mlr {' '.join(shlex.quote(x) for x in vargv)} (the two spellings of -r) give different output",
+                          {"argv": io + aargv, "stdin": inp, "other_argv": io + vargv, "stdout": r3.stdout[:2000], "other_stdout": r1.stdout[:2000]})
+    if touched:
+        res["nontrivial_keys"].append(_h("subs-law", which, vargv, case["seed"]))
+    res["sample"] = {"monitor": "verb/subs-law", "argv": vargv, "records": len(recs)} if case.get("want_sample") else None
+    return res
+
+
+# ==========================================================================================
 # (bad) invalid UTF-8 arguments: no crash, a value comes back, strlen >= 0; byte functions exact
 
 BAD_BYTES = [b"\xff", b"\xfe", b"\xc3", b"\xe2\x82", b"\x80", b"\xbf", b"\xf0\x9f\x98", b"\xc0\xaf", b"\xed\xa0\x80",
@@ -1593,6 +1976,19 @@ BAD_EXPRS = [("strlen", "strlen($a)"), ("toupper", "toupper($a)"), ("tolower", "
              ("md5", "md5($a)"), ("sha1", "sha1($a)"), ("sha256", "sha256($a)"), ("sha512", "sha512($a)"),
              ("hex_encode", "hex_encode($a)"), ("base64_encode", "base64_encode($a)"),
              ("b64rt", "hex_encode(base64_decode(base64_encode($a)))")]
+# byte-exact laws that need no character semantics (the result is read through hex_encode, so the bytes are
+# observable although the JSON carrier cannot show them): concatenation, placeholder formatting, literal
+# substitution of a valid-UTF-8 needle, split/join inverse, string(), are byte-transparent by definition
+# (NOT json_stringify: a JSON text must be valid Unicode, an encoder may substitute U+FFFD - and Miller's does)
+BAD_HEX = [("hx_dot", "hex_encode($a . $b)", lambda a, b: a + b),
+           ("hx_format", 'hex_encode(format("{}:{}",$a,$b))', lambda a, b: a + b":" + b),
+           ("hx_ssub", 'hex_encode(ssub($a,"a","é"))', lambda a, b: a.replace(b"a", "é".encode(), 1)),
+           ("hx_gssub", 'hex_encode(gssub($a,"a","é"))', lambda a, b: a.replace(b"a", "é".encode())),
+           ("hx_gssub_mb", 'hex_encode(gssub($a,"é","a"))', lambda a, b: a.replace("é".encode(), b"a")),
+           ("hx_joinsplit", 'hex_encode(joinv(splitax($a,"a"),"a"))', lambda a, b: a),
+           ("hx_string", "hex_encode(string($a))", lambda a, b: a),
+           ("hx_b64rt", "hex_encode(string(base64_decode(base64_encode($a))))", lambda a, b: a)]
+BAD_EXPRS = BAD_EXPRS + [(n, e) for n, e, _ in BAD_HEX]
 BAD_EXACT = {"md5": lambda b: hashlib.md5(b).hexdigest(), "sha1": lambda b: hashlib.sha1(b).hexdigest(),
              "sha256": lambda b: hashlib.sha256(b).hexdigest(), "sha512": lambda b: hashlib.sha512(b).hexdigest(),
              "hex_encode": lambda b: b.hex(), "base64_encode": lambda b: base64.b64encode(b).decode(),
@@ -1648,9 +2044,26 @@ def bad_case(case):
         if r.ok and not r.crashed():
             recs = parse_out(r.stdout.decode("utf-8", "replace"))
             if recs is None or len(recs) != hi - lo:
-                res["skipped"] += hi - lo     # unparseable JSON around invalid bytes is C01's subject
+                # isolate the row (one bad row must not hide the other 39 - nor itself)
+                if hi - lo <= 1:
+                    add_violation(res, {"kind": "output-unparseable" if recs is None else "record-count", "fn": "any", "class": "invalid-utf8"},
+                                  f"string functions on invalid UTF-8 {rows[lo][0]!r}: exit 0 but the output is "
+                                  + ("not parseable JSON" if recs is None else f"{len(recs)} records for 1 input record"),
+                                  {"argv": argv, "stdin": enc(rows[lo:hi]), "stdout": r.stdout[:1500]})
+                    return
+                mid = (lo + hi) // 2
+                go(lo, mid)
+                go(mid, hi)
                 return
             for (raw, bsub, m, n, w), rec in zip(rows[lo:hi], recs):
+                for name, _, law in BAD_HEX:
+                    e = law(raw, bsub).hex()
+                    res["evals"] += 1
+                    if rec.get("r_" + name) != e:
+                        add_violation(res, {"kind": "value", "fn": name[3:], "class": "invalid-utf8-bytes"},
+                                      f"{dict((n_, e_) for n_, e_, _ in BAD_HEX)[name]} with a={raw!r} b={bsub!r} = {rec.get('r_' + name)!r}, "
+                                      f"the bytes should be {e!r}",
+                                      {"argv": argv, "stdin": enc([(raw, bsub, m, n, w)]), "expected": e, "got": rec.get("r_" + name)})
                 for name, _ in BAD_EXPRS:
                     res["evals"] += 1
                     t = rec.get("t_" + name)
@@ -1700,6 +2113,14 @@ DOC_FUNCS = ("base64_decode base64_encode capitalize clean_whitespace collapse_w
              "strip strlen strmatch strmatchx sub substr substr0 substr1 tolower toupper truncate unformat unformatx "
              "utf8_to_latin1 md5 sha1 sha256 sha512 fmtifnum fmtnum hexfmt joink joinkv joinv splita splitax splitkv "
              "splitkvx splitnv splitnvx string bytes json_parse json_stringify").split()
+
+
+# parsable examples in `mlr help function F` today: a help text that stops printing them (or a help command that fails)
+# must not silently empty the case
+DOC_HELP_MIN = {'base64_decode': 2, 'base64_encode': 2, 'contains': 5, 'format': 5, 'gssub': 1, 'gsub': 5, 'hex_decode': 2,
+                'hex_encode': 1, 'index': 5, 'leftpad': 3, 'regextract': 2, 'regextract_or_else': 2, 'rightpad': 3, 'ssub': 1,
+                'strmatch': 5, 'strmatchx': 3, 'sub': 5, 'unformat': 3, 'unformatx': 3, 'fmtifnum': 2, 'joink': 2, 'joinkv': 2,
+                'joinv': 2, 'splita': 1, 'splitax': 1, 'splitkv': 1, 'splitkvx': 1, 'splitnv': 1, 'splitnvx': 1, 'bytes': 2}
 
 
 def _unhtml(t):
@@ -1811,7 +2232,17 @@ def doc_case(case):
         fn = case["fn"]
         r = run_mlr(["help", "function", fn])
         bump(res, "procs")
-        for expr, exp in help_examples(r.out):
+        exs = help_examples(r.out)
+        res["evals"] += 1
+        if r.verdict == "slow":
+            res["inconc"] += 1
+        elif not r.ok or not r.out.startswith(fn) or len(exs) < DOC_HELP_MIN.get(fn, 0):
+            add_violation(res, {"kind": "doc-example", "fn": fn, "class": "help-examples-missing"},
+                          f"`mlr help function {fn}` " + (f"fails (rc={r.rc})" if not r.ok else
+                          f"prints {len(exs)} parsable examples, {DOC_HELP_MIN.get(fn, 0)} are pinned" if r.out.startswith(fn) else
+                          f"does not describe {fn}: {r.out[:80]!r}"),
+                          {"argv": ["help", "function", fn], "stdin": "", "stdout": r.out[:1500], "stderr": r.err[:300]})
+        for expr, exp in exs:
             argv = ["-n", "put", "end{print " + expr + "}"]
             r2 = run_mlr(argv, cpu_s=5)
             bump(res, "procs")
@@ -2008,8 +2439,15 @@ def run(chk):
         "groups <= 9, alternation, ^ $) x subjects sampled from the pattern, regex as data and as \"...\"/\"...\"i literal; "
         "fmt: random %[flags][width][.prec][l|ll]verb formats with literal text x number spellings (ints incl. hex/binary/boundaries, floats, "
         "non-numbers), plus --ofmt and format-values runs (thorough: the full flag-subset x 11 verbs x 3 widths x 4 precisions grid x 40 numbers); "
-        "verb: 9 wrapping verbs x option variants vs put with the function; bad: invalid UTF-8 byte strings through 50 functions and 12 verb "
-        "invocations; doc: every example of `mlr help function` for the 50 functions and the GENMD/REPL blocks of the 3 reference pages. "
+        "re/capseq: random 3-6 step sequences of =~ / !=~ / =~ null / function calls over three data regexes with the capture template observed "
+        "after every step and before the first (40 records per process); one re/data process per run first sends 1100 distinct patterns "
+        "(past the 1000-entry compile cache) and re-uses early and late ones; "
+        "verb: 9 wrapping verbs x option variants vs put with the function; verb/subs-law: sub/gsub/ssub verb x (-f | -a | -r rx | -r -f rx) "
+        "x hostile regex pool (165 atoms: \\b \\B \\\\ \\? \\| \\{ hex/octal escapes of metacharacters, C escapes, Perl/POSIX/Unicode classes, "
+        "anchors, flags, \\Q..\\E, named groups, empty-matching pieces; 1-3 atoms concatenated / alternated / quantified, 25% random ASTs, "
+        "\"...\" and \"...\"i wrapped) x replacement with captures and C escapes, on 10 (every 60th case: 520) records: verb output == put "
+        "with the function per field == Python reference; bad: invalid UTF-8 byte strings through 58 functions (8 byte-exact laws read "
+        "through hex_encode) and 12 verb invocations; doc: every example of `mlr help function` for the 50 functions and the GENMD/REPL blocks of the 3 reference pages. "
         "Non-trivial = string has >= 1 multi-byte character and an index/width strictly inside it (unary functions: has a multi-byte character); "
         "regex has >= 1 group or alternation and matches; format has >= 1 flag and a width or precision; verb run changes a record containing "
         "multi-byte text; distinct = by (function, argument tuple) hash")
@@ -2021,8 +2459,16 @@ def run(chk):
         "(Python single-code-point mapping; not sigma, sharp s, dotted/dotless i, ligatures, Georgian); case -s/-t only on letters and single spaces",
         "substr/substr0/substr1 out-of-bounds follow the slice rule of reference-main-strings.md (indices trimmed); truncate with negative "
         "length, splitax with empty separator or empty input, utf8_to_latin1 outside Latin-1, format placeholders other than {} {n}: skipped",
-        "regex: only the shared RE2/Python subset; a quantified sub-pattern never matches the empty string; patterns that can match the empty "
-        "string are not used for gsub and for the sub/gsub verbs; case-insensitive subjects avoid characters with multi-way folds; "
+        "regex: only the shared RE2/Python subset (the hostile pool spells RE2's ASCII-only \\b \\d \\w \\s, POSIX classes, \\Q..\\E, \\x{..}, \\z, "
+        "(?U:..) as explicit Python equivalents; \\pL-style classes have no reference and are judged verb-vs-function only); a quantified "
+        "sub-pattern never matches the empty string; gsub with a pattern that can match the empty string is judged by Go's replace-all rule "
+        "(the docs name Go's regexp as the engine: no empty match adjacent to the previous match, advance one character); "
+        "sub/gsub/ssub verb law: the regex reaches the function through put -s (texts that would be inferred as numbers or read as options "
+        "are not used); the verb's replacement (ssub: also its search text) is C-unescaped as its usage says (\\n \\t \\xHH \\\\ only); a text that "
+        "neither Go nor the reference compiles is skipped; captures are reset at the start of every record (the put expression is evaluated "
+        "per record; 'before any match is done' \\1 evaluates to itself); !=~ sets captures like =~ ('for the =~ and !=~ operators'); "
+        "a data regex /x/ is the literal text (docs: 'double quotes rather than slashes'), \"x\" and \"x\"i are the delimited forms; "
+        "case-insensitive subjects avoid characters with multi-way folds; "
         "replacement references only to existing groups; strmatchx positions are character (not byte) indices as all Miller string indices are; "
         "non-participating groups read as empty",
         "printf: C semantics for d x X o b e E f F g G; negative ints under x X o b are 64-bit two's complement (as hexfmt documents); a float "
@@ -2053,6 +2499,12 @@ def run(chk):
         cases = []
         for i in range(12 if q else 150):
             cases.append({"seed": f"{chk.seed}/re/data/{i}", "mode": "data", "n": 60 if q else 100})
+        cases[0]["fill"] = 1100        # > the 1000-entry compiled-regex cache, once per run (thorough: three processes)
+        if not q:
+            cases[1]["fill"] = 1000
+            cases[2]["fill"] = 2100
+        for i in range(24 if q else 300):
+            cases.append({"seed": f"{chk.seed}/re/capseq/{i}", "mode": "capseq", "n": 40})
         for i in range(150 if q else 2500):
             cases.append({"seed": f"{chk.seed}/re/lit/{i}", "mode": "lit", "n": 4})
         for i in range(150 if q else 2500):
@@ -2078,6 +2530,11 @@ def run(chk):
         verbs = ["sub", "gsub", "ssub", "case", "case", "clean-whitespace", "unspace", "utf8-to-latin1", "latin1-to-utf8", "format-values"]
         for i in range(200 if q else 3000):
             cases.append({"seed": f"{chk.seed}/verb/{i}", "verb": verbs[i % len(verbs)], "n": 12})
+        laws = ["gsub", "sub", "gsub", "sub", "ssub"]
+        for i in range(240 if q else 4000):
+            # every 60th case crosses the 500-record batch boundary
+            cases.append({"seed": f"{chk.seed}/verb/subs-law/{i}", "verb": "subs-law", "which": laws[i % len(laws)],
+                          "n": 520 if i % 60 == 7 else 10})
         cases[0]["want_sample"] = True
         chk.pmap(verb_case, cases, label="verb")
     if want("bad"):
@@ -2097,6 +2554,7 @@ def run(chk):
     chk.extra["wrapping_verb_records"] = {k[5:]: v for k, v in sorted(st.items()) if k.startswith("verb:") and len(k) > 6}
     chk.extra["skipped_per_function"] = {k[8:]: v for k, v in sorted(st.items()) if k.startswith("skipped:")}
     chk.extra["mlr_processes"] = st.get("procs", 0)
+    chk.extra["regex_cache_fill_patterns"] = st.get("regex_cache_fill_patterns", 0)
     chk.extra["documentation_examples_replayed"] = st.get("doc_examples", 0)
     for k in [k for k in st if k.startswith(("fn:", "verb:", "skipped:"))]:
         st.pop(k)
